@@ -404,10 +404,37 @@ fn c15_lines() -> Vec<String> {
     v
 }
 
+/// Watchdog for the parser enumeration: a parse (or an executed line) that does not return
+/// within 3 s means the main thread of the engine would be wedged on that line. The worker
+/// cannot interrupt it; it records the line in a side file and exits (the parent turns that
+/// into a C15 violation).
+static C15_CURRENT: Mutex<Option<(String, std::time::Instant)>> = Mutex::new(None);
+
+fn c15_watchdog() {
+    std::thread::spawn(|| loop {
+        std::thread::sleep(std::time::Duration::from_millis(100));
+        let cur = C15_CURRENT.lock().unwrap_or_else(|e| e.into_inner()).clone();
+        if let Some((line, since)) = cur {
+            if since.elapsed() > std::time::Duration::from_secs(3) {
+                let dir = report::verif_root().join(".work").join("overrun");
+                let _ = std::fs::create_dir_all(&dir);
+                let doc = obj(vec![("kind", s("parse")), ("line", s(line)), ("wedged", J::Bool(true))]);
+                let _ = std::fs::write(dir.join(format!("{}.json", std::process::id())), doc.compact());
+                std::process::exit(3);
+            }
+        }
+    });
+}
+
+fn c15_guard(line: &str) {
+    *C15_CURRENT.lock().unwrap_or_else(|e| e.into_inner()) = Some((line.to_string(), std::time::Instant::now()));
+}
+
 pub fn c15_worker(args: &Args, w: &Worker) -> i32 {
     // E1: ALL token strings up to the length bound through the real parser; every line that
     // does not start a search is also executed through the real command loop.
     super::searchrun::quiet_panics();
+    c15_watchdog();
     let thorough = args.tier == "thorough";
     let maxlen = if thorough { 5 } else { 4 };
     let n = VOCAB.len();
@@ -435,6 +462,7 @@ pub fn c15_worker(args: &Args, w: &Worker) -> i32 {
                 x /= base;
             }
             w.count("token_strings_parsed", 1);
+            c15_guard(&toks.join(" "));
             let r = std::panic::catch_unwind(|| crate::uci::rce_verif_parse(&toks));
             match r {
                 Err(_) => {
@@ -499,6 +527,15 @@ pub fn c15_run(args: &Args) -> i32 {
             return 2;
         }
     };
+    for h in &merged.hung {
+        let doc = J::parse(h).unwrap_or(J::Null);
+        let line = doc.get("line").and_then(|x| x.str()).unwrap_or("?").to_string();
+        sink.report(
+            "parse|wedged".into(),
+            format!("the command parser / loop does not return within 3 s on '{line}': the main thread of the engine is wedged"),
+            doc,
+        );
+    }
     // E2: all sessions of <= L lines over the representative lines, each line followed by
     // isready; ended by quit and, separately, by closing stdin
     let lines = c15_lines();
@@ -585,6 +622,26 @@ pub fn replay_c15(doc: &J) -> i32 {
         Some(k) => {
             let line = r.get("line").and_then(|x| x.str()).unwrap_or("").to_string();
             super::searchrun::quiet_panics();
+            if r.get("wedged").is_some() {
+                // run it on a thread: a parse that never returns cannot be interrupted
+                let (tx, rx) = std::sync::mpsc::channel();
+                let l2 = line.clone();
+                std::thread::spawn(move || {
+                    let toks: Vec<&str> = l2.split_whitespace().collect();
+                    let _ = std::panic::catch_unwind(|| crate::uci::rce_verif_parse(&toks));
+                    let _ = tx.send(());
+                });
+                return match rx.recv_timeout(std::time::Duration::from_secs(3)) {
+                    Ok(()) => {
+                        println!("'{line}' parses in time");
+                        0
+                    }
+                    Err(_) => {
+                        println!("violation reproduced: the parser does not return on '{line}'");
+                        std::process::exit(1);
+                    }
+                };
+            }
             let toks: Vec<&str> = line.split_whitespace().collect();
             let mut v = vec![];
             for _ in 0..2 {
